@@ -189,7 +189,7 @@ func propC14(c *Ctx) {
 		propC14Bulk(c, st, bulk)
 	}
 	states := []string{"g", "e", "c"}
-	quotes := []rune{'\'', '"', 0xab, 0x201c, 0x100, 0xff, 0x101, 0x1f600, 0xfffd, '`', '\\', ' ', '\t', 'a', '0', ',', 0x80, 0x7f, 0x81, 0x7ff, 0x800}
+	quotes := []rune{'\'', '"', 0xab, 0x201c, 0x100, 0xff, 0x101, 0x1f600, 0xfffd, '`', '\\', ' ', '\t', 'a', '0', ',', 0x80, 0x7f, 0x81, 0x7ff, 0x800, '%', '$', '{', '*', '.', '^', '[', '(', '|', '?', '&', '#'}
 	maxL := 4
 	if c.Thorough {
 		maxL = 6
